@@ -99,7 +99,7 @@ PROP_TARGETS: dict[str, list[str]] = {
     "C15": ["theories/Jit.vo", "gen/JitGen.vo"],
     "C20": ["theories/Cli.vo", "gen/OptGen.vo"],
     "C13": ["theories/Naming.vo", "gen/NamingGen.vo"],
-    "C17": ["theories/Smart.vo", "theories/SmartQc.vo", "theories/Render.vo", "theories/Enc.vo", "theories/Num.vo", "theories/Sym.vo", "theories/SymEq.vo", "theories/Opt.vo", "theories/OptProps.vo", "theories/Footprint.vo", "theories/OptSound.vo"],
+    "C17": ["theories/Smart.vo", "theories/SmartQc.vo", "theories/Render.vo", "theories/Enc.vo", "theories/Num.vo", "theories/Sym.vo", "theories/SymEq.vo", "theories/Opt.vo", "theories/OptProps.vo", "theories/Footprint.vo", "theories/OptSound.vo", "theories/LicmProps.vo"],
     "C16": ["theories/Fmt.vo", "theories/FmtSem.vo", "theories/Render.vo", "theories/Enc.vo", "theories/StmtFmt.vo", "theories/StmtRender.vo"],
 }
 
